@@ -946,6 +946,8 @@ class Interp:
 
     def st_For(self, st, env):
         it = self.eval(st.iter, env)
+        if hasattr(it, '_lazy_map') and hasattr(it, '_concrete_len') and not it._concrete_len():
+            return self._foreach(st, it, env)
         for item in self.iterate(it):
             self.assign(st.target, item, env)
             try:
@@ -955,6 +957,36 @@ class Interp:
             except _Continue:
                 continue
         self.exec_block(st.orelse, env)
+
+    def _foreach(self, st, it, env):
+        """FOREACH rule for a loop over a sequence of symbolic length whose iterations are independent and only emit
+        trace events: the body is executed once for a Skolem iteration k; the events of that iteration are recorded as
+        one ('foreach', sequence, k, events) entry -- an obligation about it holds for every iteration."""
+        assigned, read_first = _loop_names(st)
+        carried = assigned & read_first
+        if carried or st.orelse:
+            raise Unsupported(f'loop over a sequence of symbolic length with loop-carried state {sorted(carried)} (needs an invariant)')
+        seq = it._rows() if hasattr(it, '_rows') else it
+        if not hasattr(seq, 'at'):
+            raise Unsupported('loop over a symbolic sequence without element access')
+        c = core.ctx()
+        k = c.fresh_int('iter')
+        c.assume(k >= 0)
+        c.assume(k < seq.length)
+        c.lib_used.add('FOREACH (independent iterations emitting trace events, decided at a Skolem iteration)')
+        n0 = len(c.events)
+        self.assign(st.target, seq.at(k), env)
+        try:
+            self.exec_block(st.body, env)
+        except _Continue:
+            pass
+        except _Break:
+            raise Unsupported('break in a loop over a sequence of symbolic length')
+        sub = c.events[n0:]
+        del c.events[n0:]
+        c.event('foreach', it, k, sub)
+        for name in assigned:
+            env.vars.pop(name, None)       # values of one arbitrary iteration must not be used after the loop
 
     def st_Try(self, st, env):
         try:
@@ -1617,6 +1649,35 @@ def _neg(x):
     if hasattr(x, '_asarray') or type(x).__name__ == 'NDArray':
         return ~x
     return s_not(truthy(x))
+
+
+def _loop_names(st):
+    """(names assigned in the loop body or target, names read before being assigned in straight-line order)"""
+    assigned = set()
+    for t in ast.walk(st.target):
+        if isinstance(t, ast.Name):
+            assigned.add(t.id)
+    read_first = set()
+    seen_store = set(assigned)
+
+    def visit(node):
+        for n in ast.walk(node):
+            if isinstance(n, ast.Name):
+                if isinstance(n.ctx, ast.Load) and n.id not in seen_store and n.id in all_stores:
+                    read_first.add(n.id)
+        for n in ast.walk(node):
+            if isinstance(n, ast.Name) and isinstance(n.ctx, ast.Store):
+                seen_store.add(n.id)
+    all_stores = set(assigned)
+    for b in st.body:
+        for n in ast.walk(b):
+            if isinstance(n, ast.Name) and isinstance(n.ctx, ast.Store):
+                all_stores.add(n.id)
+            if isinstance(n, ast.AugAssign) and isinstance(n.target, ast.Name):
+                read_first.add(n.target.id)
+    for b in st.body:
+        visit(b)
+    return all_stores, read_first
 
 
 def _contains_yield(node):
